@@ -395,7 +395,10 @@ def v850_dispose(obj, l1, reg2, imm, l0):
         r = list12.pop(0)
         if b == 1:
             L.append(r)
-    obj.operands = [env.mem(env.sp, 32, disp=imm), L]
+    # the register list is given by its 12-bit mask; the registers
+    # themselves are in obj.reglist
+    obj.reglist = L
+    obj.operands = [env.mem(env.sp, 32, disp=imm), env.cst((l0 // l1).int(), 12)]
     if reg2 != 0:
         obj.operands.append(env.R[reg2])
     obj.type = type_data_processing
@@ -410,7 +413,10 @@ def v850_prepare(obj, l1, imm, l0):
         r = list12.pop(0)
         if b == 1:
             L.append(r)
-    obj.operands = [L, env.cst(imm, 5)]
+    # the register list is given by its 12-bit mask; the registers
+    # themselves are in obj.reglist
+    obj.reglist = L
+    obj.operands = [env.cst((l0 // l1).int(), 12), env.cst(imm, 5)]
     obj.type = type_data_processing
 
 
@@ -433,7 +439,8 @@ def v850_prepare(obj, imm32, lh, ff, imm, lo):
         op3 = env.cst((imm & 0xFFFF) << 16, 32)
     elif ff == 0b11:
         op3 = env.cst(imm, 32)
-    obj.operands = [L, env.cst(imm, 5), op3]
+    obj.reglist = L
+    obj.operands = [env.cst((lo // lh).int(), 12), env.cst(imm, 5), op3]
     obj.type = type_data_processing
 
 
